@@ -477,6 +477,49 @@ func advEP(rng *rand.Rand, p *ref.Pos) {
 	}
 }
 
+// PrePush builds positions in which black (before the optional mirror) can double-push a pawn
+// next to a white pawn while kings and sliders stand on the lines that decide whether the
+// en-passant capture will be legal: the positions one ply before advEP's.
+func PrePush(rng *rand.Rand) (ref.Pos, bool) {
+	var p ref.Pos
+	p.EP = -1
+	p.White = true
+	p.Full = 1 + rng.IntN(60)
+	p.Half = rng.IntN(20)
+	advEP(rng, &p)
+	f := p.EP % 8
+	p.EP = -1
+	// take the push back
+	if p.Sq[4*8+f] != -ref.P || p.Sq[5*8+f] != 0 || p.Sq[6*8+f] != 0 {
+		return p, false
+	}
+	p.Sq[4*8+f] = 0
+	p.Sq[6*8+f] = -ref.P
+	p.White = false
+	if p.KingSq(true) < 0 {
+		place(rng, &p, ref.K)
+	}
+	if p.KingSq(false) < 0 {
+		place(rng, &p, -ref.K)
+	}
+	nf := rng.IntN(5)
+	for i := 0; i < nf; i++ {
+		v := int8(1 + rng.IntN(5))
+		if rng.IntN(2) == 0 {
+			v = -v
+		}
+		place(rng, &p, v)
+	}
+	if p.Sq[5*8+f] != 0 || p.Sq[4*8+f] != 0 {
+		return p, false
+	}
+	addRights(rng, &p, 0.3)
+	if !p.Valid() {
+		return p, false
+	}
+	return MaybeMirror(rng, p.Normalised()), true
+}
+
 // advStale: white king with few or no flight squares, pinned and blocked pieces, not in check.
 func advStale(rng *rand.Rand, p *ref.Pos) {
 	corners := [][2]int{{0, 0}, {7, 0}, {0, 7}, {7, 7}, {rng.IntN(8), 0}, {0, rng.IntN(8)}, {rng.IntN(8), rng.IntN(8)}}
@@ -696,7 +739,11 @@ func Shuffle(rng *rand.Rand, start ref.Pos, maxPlies int, back float64, clockCap
 // AnyPos draws a valid position from a mix of all random generators and corpus playouts.
 func AnyPos(rng *rand.Rand) ref.Pos {
 	for {
-		switch rng.IntN(6) {
+		switch rng.IntN(7) {
+		case 6:
+			if p, ok := PrePush(rng); ok {
+				return p
+			}
 		case 0, 1:
 			if p, ok := Dense(rng); ok {
 				return p
